@@ -191,6 +191,59 @@ pub enum Key {
     Msg(Nonce),
 }
 
+/// The harness's picture of a cache that keeps the `cap` most recently written
+/// keys. It exists only to LABEL an admission of a handed-out input as "the
+/// bounded cache had (as good as) dropped the entry" or not; verdicts never depend
+/// on it.
+pub struct LabelCache {
+    cap: usize,
+    /// oldest first
+    order: Vec<Key>,
+    evicted: BTreeSet<Key>,
+    /// every key ever written
+    pub ever: BTreeSet<Key>,
+}
+
+/// the order in which a block's transactions reach the cache is not observable
+/// (hash-set iteration); keys this close to eviction count as dropped
+const SLACK: usize = 2;
+
+impl LabelCache {
+    pub fn new(cap: usize) -> Self {
+        LabelCache {
+            cap,
+            order: Vec::new(),
+            evicted: BTreeSet::new(),
+            ever: BTreeSet::new(),
+        }
+    }
+
+    pub fn put(&mut self, k: Key) {
+        self.order.retain(|x| x != &k);
+        self.order.push(k);
+        self.evicted.remove(&k);
+        self.ever.insert(k);
+        while self.order.len() > self.cap {
+            let old = self.order.remove(0);
+            self.evicted.insert(old);
+        }
+    }
+
+    pub fn pop(&mut self, k: &Key) {
+        self.order.retain(|x| x != k);
+    }
+
+    pub fn forgot(&self, k: &Key) -> bool {
+        if self.evicted.contains(k) {
+            return true;
+        }
+        match self.order.iter().position(|x| x == k) {
+            Some(p) => self.order.len() + SLACK > self.cap && p < SLACK,
+            None => false,
+        }
+    }
+}
+
 pub struct Model {
     pub chain: ChainView,
     pub unsettled: BTreeMap<TxId, Unsettled>,
@@ -205,12 +258,16 @@ pub struct Model {
     pub reserve: Vec<TxId>,
     /// every key the pool was told is (maybe) spent, in order; used only to LABEL
     /// a finding as "cache under pressure" or not, never for a verdict
-    pub spent_log: Vec<Key>,
+    pub cache: LabelCache,
+    /// pooled transactions one of whose pooled dependents was committed (by a block
+    /// or preconfirmation) while they stayed pooled: the pool does not re-compute
+    /// their cumulative subtree tip/gas in that case
+    pub stale_stats: BTreeSet<TxId>,
     pub seq: u64,
 }
 
 impl Model {
-    pub fn new(chain: ChainView) -> Self {
+    pub fn new(chain: ChainView, cache_capacity: usize) -> Self {
         Model {
             chain,
             unsettled: BTreeMap::new(),
@@ -219,7 +276,8 @@ impl Model {
             stale_preconf: BTreeSet::new(),
             store: BTreeMap::new(),
             reserve: Vec::new(),
-            spent_log: Vec::new(),
+            cache: LabelCache::new(cache_capacity),
+            stale_stats: BTreeSet::new(),
             seq: 0,
         }
     }
@@ -249,26 +307,52 @@ impl Model {
         self.unsettled.values().any(|x| x.contracts.contains(c))
     }
 
-    /// Would a cache of `capacity` most-recently-written keys have dropped `k`?
-    pub fn cache_forgot(&self, k: &Key, capacity: usize) -> bool {
-        let Some(pos) = self.spent_log.iter().rposition(|x| x == k) else {
-            return false;
-        };
-        let distinct: BTreeSet<&Key> =
-            self.spent_log[pos + 1..].iter().filter(|x| *x != k).collect();
-        distinct.len() >= capacity
+    /// Can the harness show that the bounded spent-input cache has dropped `k`
+    /// (or is within `SLACK` writes of dropping it)? Used only to LABEL findings.
+    pub fn cache_forgot(&self, k: &Key) -> bool {
+        self.cache.forgot(k)
     }
 
-    pub fn log_spend(&mut self, t: &TxInfo, with_inputs: bool) {
-        if with_inputs {
-            for (u, _) in &t.coins {
-                self.spent_log.push(Key::Coin(*u));
-            }
-            for m in &t.msgs {
-                self.spent_log.push(Key::Msg(m.nonce));
+    fn input_keys(t: &TxInfo) -> Vec<Key> {
+        t.coins
+            .iter()
+            .map(|(u, _)| Key::Coin(*u))
+            .chain(t.msgs.iter().map(|m| Key::Msg(m.nonce)))
+            .collect()
+    }
+
+    /// the pool handed `t` out for a block
+    pub fn spend_extracted(&mut self, t: &TxInfo) {
+        for k in Self::input_keys(t) {
+            self.cache.put(k);
+        }
+        self.cache.put(Key::Tx(t.id));
+    }
+
+    /// `t` was committed by a block or preconfirmed as executed
+    pub fn spend_committed(&mut self, t: &TxInfo, pooled_before: bool, handed_out_before: bool) {
+        self.cache.put(Key::Tx(t.id));
+        if handed_out_before {
+            for k in Self::input_keys(t) {
+                self.cache.put(k);
             }
         }
-        self.spent_log.push(Key::Tx(t.id));
+        if pooled_before {
+            for k in Self::input_keys(t) {
+                self.cache.put(k);
+            }
+            self.cache.put(Key::Tx(t.id));
+        }
+    }
+
+    /// `t` was skipped or its preconfirmation rolled back
+    pub fn unspend(&mut self, t: &TxInfo, with_inputs: bool) {
+        self.cache.pop(&Key::Tx(t.id));
+        if with_inputs {
+            for k in Self::input_keys(t) {
+                self.cache.pop(&k);
+            }
+        }
     }
 
     pub fn static_outputs(t: &TxInfo) -> (BTreeMap<u16, CoinFields>, BTreeSet<ContractId>) {
